@@ -6,8 +6,8 @@ BOUNDS = {
              'bidirectional wrapper for the algorithms that need it at LN in {0,2,4}; single-pass input + write-only output wrappers at LN in {0,3}, LM in {0,2}. '
              'Symbolic: every element (32 bit), searched / replaced values, predicate parameters (mask, pivot), generator seed/step, counts (copy_n, fill_n, generate_n <= LN incl. negative; search_n any int), '
              'shift amounts (any non-negative 64-bit value; negative for the documented no-op of shift_right), rotate / rotate_copy split point 0..LN, iter_swap positions',
-    'thorough': 'as quick with LN = 0..6, LM = 0..4 for pointers (merge/set_*/find_end: LN+LM <= 7, is_permutation / equal_range: LN <= 5); comparators and wrappers at LN = 0..5, LM = 0..3; '
-                'key-only comparator over bidirectional wrapper LN <= 4; struct element type (key, tag) with key-only operators over pointers and forward wrapper',
+    'thorough': 'as quick with LN = 0..6, LM = 0..4 for pointers (merge/set_*/find_end: LN+LM <= 7, is_permutation / equal_range: LN <= 5); comparators and wrappers at LN in {0,1,2,3,5}, LM in {0,1,2,3}; '
+                'key-only comparator over bidirectional wrapper LN <= 4; struct element type (key, tag) with key-only operators over pointers (LN <= 5) and forward wrapper (LN <= 4)',
 }
 ASSUMPTIONS = [
     'alg_std: oracle = libstdc++ 12 algorithm of the same name on a copy, compiled through the same pipeline; for search, find_end, is_permutation, merge, set_* the oracle is called through a forward/bidirectional iterator view (same specification, cheaper encoding than the unrolled random-access implementation); rotate is compared with std::rotate_copy',
@@ -49,7 +49,7 @@ def open_ids():
         ids |= {k['id'] for k in json.load(open(kp)).get('open', [])}
     return ids
 
-def one(entry, n, m, it, cmp, elem, ub, budget=120):
+def one(entry, n, m, it, cmp, elem, ub, budget=240):
     un = (n + m + 2) if entry in MERGE else max(n, m) + 2
     mem = 4 * (n + m) + 6
     return dict(entry='q_' + entry, cfg={'LN': n, 'LM': m, 'IT': it, 'CMP': cmp, 'ELEM': elem}, unwind=un,
@@ -95,12 +95,13 @@ def queries(tier, prop='C06'):
         nmax, mmax = 6, 4
         grid(out, range(0, nmax + 1), range(0, mmax + 1), 0, 0, 0, ub)
         for cmp in (1, 2):
-            grid(out, range(0, 6), range(0, 4), 0, cmp, 0, ub)
+            grid(out, (0, 1, 2, 3, 5), (0, 1, 2, 3), 0, cmp, 0, ub)
         for it in (1, 2, 3):
-            grid(out, range(0, 6), range(0, 4), it, 0, 0, ub)
-        grid(out, (0, 1, 2, 3, 4), (0, 1, 2, 3), 2, 2, 0, ub)
+            grid(out, (0, 1, 2, 3, 5), (0, 1, 3), it, 0, 0, ub)
+        grid(out, (0, 1, 2, 4), (0, 2), 2, 2, 0, ub)
         grid(out, (0, 1, 3, 5), (0, 2, 3), 0, 0, 1, ub)                              # struct element (key, tag), operators look at the key only
-        grid(out, (0, 1, 3, 4), (0, 2, 3), 1, 0, 1, ub)
+        grid(out, (0, 1, 3, 4), (0, 2), 1, 0, 1, ub)
+        for q_ in out: q_['budget'] = 600
     out = [q for q in out if allowed(q['entry'][2:], q['cfg']['LN'], q['cfg']['LM'], tier)]
     # configurations that lie completely inside an open known-finding region would be vacuous: skipped while the finding is open
     def inside(q):
